@@ -77,13 +77,16 @@ def concurrent_clients(chk, r, nthreads):
     from spatialpandas import GeoSeries
     from .c01 import random_family
     for kind in ("point", "line", "polygon"):
-        els = random_family(kind, r, 300, 30)
+        # many rows, a quarter of them missing (whatever a missing row holds in its slot must never surface, also not while another
+        # thread is in the middle of the first bounds / index computation); the boxes contain the origin
+        els = random_family(kind, r, 4000 if kind == "point" else 300, 30)
+        els = [None if r.random() < 0.25 else e for e in els]
         boxes = [(r.randint(-30, 0), r.randint(-30, 0), r.randint(1, 30), r.randint(1, 30)) for _ in range(nthreads)]
         ref_s = GeoSeries(geo.make_array(kind, els, "float64"))
         ref_s.build_sindex(page_size=16)
         want = [list(ref_s.cx[b[0]:b[2], b[1]:b[3]].index) for b in boxes]
         want_i = [sorted(int(x) for x in ref_s.sindex.intersects(b)) for b in boxes]
-        for rep_no in range(3):
+        for rep_no in range(8 if kind == "point" else 3):
             shared = GeoSeries(geo.make_array(kind, els, "float64"))      # fresh: no index yet
             got, got_i, errs = [None] * nthreads, [None] * nthreads, []
             barrier = threading.Barrier(nthreads)
@@ -91,6 +94,8 @@ def concurrent_clients(chk, r, nthreads):
             def worker(i):
                 try:
                     barrier.wait()
+                    if i % 2:
+                        shared.bounds                                 # half of the clients ask for the bounds first
                     idx = shared.sindex                               # first access builds the index
                     got_i[i] = sorted(int(x) for x in idx.intersects(boxes[i]))
                     got[i] = list(shared.cx[boxes[i][0]:boxes[i][2], boxes[i][1]:boxes[i][3]].index)
